@@ -119,6 +119,28 @@ func contains(conn string, proto string, port int) bool {
 
 type loader func(w *wm.World, names []types.NamespacedName) (*eval.PolicyEngine, error)
 
+// sharedEngine returns a loader that builds ONE engine holding every object of the world (library use of the
+// PolicyEngine: many queries on one engine, so results cached for one pair may meet another pair).
+func sharedEngine() loader {
+	var pe *eval.PolicyEngine
+	var cur *wm.World
+	return func(w *wm.World, _ []types.NamespacedName) (*eval.PolicyEngine, error) {
+		if pe != nil && cur == w {
+			return pe, nil
+		}
+		var names []types.NamespacedName
+		for _, wl := range w.WLs {
+			names = append(names, types.NamespacedName{Namespace: wl.NS, Name: wl.Name})
+		}
+		e, err := engineLikeCLI(w, names)
+		if err != nil {
+			return nil, err
+		}
+		pe, cur = e, w
+		return pe, nil
+	}
+}
+
 type opts struct {
 	load     loader
 	allPorts bool
@@ -305,6 +327,48 @@ func scopeNP(c *fw.Ctx) *wm.World {
 	return w
 }
 
+// same owner name and the same labels in two namespaces (collision-forcing for anything keyed by owner)
+func podsSameOwnerTwoNamespaces() []wm.Workload {
+	return []wm.Workload{
+		{Kind: "Pod", NS: "ns1", Name: "r1-x", Owner: "r1", Labels: map[string]string{"app": "a"}, Ports: []wm.CPort{{Name: "http", Num: 80}}},
+		{Kind: "Pod", NS: "ns2", Name: "r1-x", Owner: "r1", Labels: map[string]string{"app": "a"}, Ports: []wm.CPort{{Name: "http", Num: 80}}},
+		{Kind: "Pod", NS: "ns1", Name: "s1-x", Owner: "s1", Labels: map[string]string{"app": "b"}, Ports: []wm.CPort{{Name: "http", Num: 8080}}},
+		{Kind: "Pod", NS: "ns2", Name: "s1-x", Owner: "s1", Labels: map[string]string{"app": "b"}, Ports: []wm.CPort{{Name: "http", Num: 8080}}},
+	}
+}
+
+func scopeShared(c *fw.Ctx) *wm.World {
+	dir := fw.Pick(c, []string{"Ingress", "Egress"}, "direction")
+	pi := c.Choose(len(npPorts), "ports")
+	qi := c.Choose(len(npPeers), "peers")
+	polNS := fw.Pick(c, []string{"ns1", "ns2"}, "policy namespace")
+	second := c.Choose(3, "second policy: none | other namespace, other ports | ANP on ns2")
+	if dir == "Egress" && (qi == 0 || qi == 3 || qi == 5) && (pi == 4 || pi == 5) {
+		c.Skip()
+	}
+	w := &wm.World{NSs: nsConfigs[0], WLs: podsSameOwnerTwoNamespaces()}
+	mk := func(ns, name string, pt []wm.NPPort) wm.NP {
+		np := wm.NP{NS: ns, Name: name, PodSel: wm.Sel{}, Types: []string{dir}}
+		rl := wm.NPRule{Peers: npPeers[qi], Ports: pt}
+		if dir == "Ingress" {
+			np.Ingress = []wm.NPRule{rl}
+		} else {
+			np.Egress = []wm.NPRule{rl}
+		}
+		return np
+	}
+	w.NPs = []wm.NP{mk(polNS, "p", npPorts[pi])}
+	switch second {
+	case 1:
+		other := map[string]string{"ns1": "ns2", "ns2": "ns1"}[polNS]
+		w.NPs = append(w.NPs, mk(other, "q", npPorts[(pi+2)%len(npPorts)]))
+	case 2:
+		p := []wm.APort{{Kind: "range", Proto: "TCP", Num: 80, End: 90}}
+		w.ANPs = []wm.ANP{{Name: "a", Prio: 5, Subject: wm.APeer{Namespaces: wm.ML("team", "b")}, Ingress: []wm.ARule{{Action: "Deny", Peers: []wm.APeer{{Namespaces: all}}, Ports: &p}}, Egress: []wm.ARule{{Action: "Deny", Peers: []wm.APeer{{Namespaces: wm.ML("team", "a")}}, Ports: &p}}}}
+	}
+	return w
+}
+
 func ports(ps ...wm.APort) *[]wm.APort { return &ps }
 
 var perms3 = [][]int{{0, 1, 2}, {0, 2, 1}, {1, 0, 2}, {1, 2, 0}, {2, 0, 1}, {2, 1, 0}}
@@ -398,6 +462,11 @@ func Run(r *fw.Run) {
 		}
 		fw.Explore(r, "C02/"+sc.Name, sc.Mode, func(c *fw.Ctx) *wm.World { return ToPods(sc.Gen(c)) }, func(w *wm.World, x *fw.Rec) { evalWorld(w, x, mirror) })
 	}
+
+	// one engine for all queries of a world (library use): same owner names across namespaces
+	fw.Explore(r, "shared-engine", fw.Full, scopeShared, func(w *wm.World, x *fw.Rec) {
+		evalWorld(w, x, opts{load: sharedEngine(), class: "[one engine for all queries] "})
+	})
 
 	// conformance: the real CLI loader (serialised: it uses package variables) on a sub-scope
 	real := opts{load: realLoader, class: "[real CLI loader] "}
